@@ -223,16 +223,33 @@ def unit_misc(unit):
                         return v
                     run(f"setitem.{kname}.scalar", {"vector": a, "key": kname, "value": val}, thunk)
             if n == 2:
-                for v1, v2 in itertools.product(values, repeat=2):
-                    for kname, key in (("slice", slice(0, 2)), ("mask", [True, True]), ("index-list", [0, 1]), ("index-list-rev", [1, 0])):
-                        for vform in ("list", "tuple", "vector"):
-                            def thunk():
-                                v = Vector(list(a))
-                                seq = [v1, v2]
-                                val = seq if vform == "list" else (tuple(seq) if vform == "tuple" else Vector(seq))
-                                v[key if kname != "index-list-rev" else [1, 0]] = val
-                                return v
-                            run(f"setitem.{kname}.multi", {"vector": a, "key": kname, "values": [v1, v2], "value_form": vform}, thunk)
+                # the target comes fresh, or with a HISTORY that left the nullable flag set although no None is held any more
+                # (a None written and overwritten; a None-free slice of a nullable vector), or after an earlier promotion
+                hists = ["fresh"] + (["none-written-and-overwritten", "none-free-slice-of-nullable", "promoted-earlier"] if None not in a else [])
+                for hist in hists:
+                    def build():
+                        if hist == "fresh":
+                            return Vector(list(a))
+                        if hist == "none-written-and-overwritten":
+                            v = Vector(list(a)); v[0] = None; v[0] = a[0]; return v
+                        if hist == "none-free-slice-of-nullable":
+                            return (Vector(list(a) + [None]))[0:2]
+                        v = Vector(list(a))
+                        wide = {int: 0.5, bool: 2, float: 1j, date: datetime(2001, 1, 1)}.get(type(a[0]))
+                        if wide is None:
+                            raise ValueError("no wider kind")
+                        v[1] = wide
+                        return v
+                    for v1, v2 in itertools.product(values, repeat=2):
+                        for kname, key in (("slice", slice(0, 2)), ("mask", [True, True]), ("index-list", [0, 1]), ("index-list-rev", [1, 0])):
+                            for vform in ("list", "tuple", "vector"):
+                                def thunk():
+                                    v = build()
+                                    seq = [v1, v2]
+                                    val = seq if vform == "list" else (tuple(seq) if vform == "tuple" else Vector(seq))
+                                    v[key if kname != "index-list-rev" else [1, 0]] = val
+                                    return v
+                                run(f"setitem.{kname}.multi" + ("" if hist == "fresh" else ".history"), {"vector": a, "history": hist, "key": kname, "values": [v1, v2], "value_form": vform}, thunk)
         # table cell / row / column assignment
         for (la, a), (lb, b) in itertools.product(pool(("int", "float", "str", "bool")), repeat=2):
             if len(a) != len(b) or not a:
@@ -272,6 +289,17 @@ def unit_misc(unit):
                 run("columns.window", case, lambda: T().window(over="k", **kw))
                 run("columns.sort_by", case, lambda: T().sort_by("v"))
                 run("columns.sort_by.desc", case, lambda: T().sort_by(["k", "v"], reverse=[True, False], na_last=False))
+        # less common numeric element types: the statistics of complex / Fraction / Decimal columns are complex / Fraction / Decimal
+        from fractions import Fraction
+        from decimal import Decimal
+        for keys in (["a", "a", "b"], ["a", "b", "a"]):
+            for pal in ([1 + 2j, 3j, None], [Fraction(1, 3), Fraction(5, 2), None], [Decimal("0.5"), Decimal("2.25"), None], [1 + 2j, 2, 0.5]):
+                for vals in itertools.product(pal, repeat=3):
+                    case = {"keys": keys, "values": [repr(v) for v in vals]}
+                    def T(): return Table({"k": keys, "v": list(vals)})
+                    for fn in ("sum", "mean", "min", "max", "count", "stdev"):
+                        run(f"columns.aggregate.{fn}", case, lambda: T().aggregate(over="k", **{fn + "_over": "v"}))
+                        run(f"columns.window.{fn}", case, lambda: T().window(over="k", **{fn + "_over": "v"}))
         # rows of a table are vectors too: read a row, change a column in place (None / wider value / replacement), read again
         homog = [{"x": [1, 2], "y": [3, 4]}, {"x": [0.5, 1.5], "y": [2.5, 3.5]}, {"x": ["a", "b"], "y": ["c", "d"]}, {"x": [True, False], "y": [False, True]}]
         writes = [("view-none", lambda t: t["x"].__setitem__(1, None)), ("cell-none", lambda t: t.__setitem__((0, "y"), None)),
